@@ -308,7 +308,7 @@ def c06(ctx):
 # ---------------------------------------------------------------------------
 # C01 / C07 / C11  the verifier
 
-VERIFY_DEVS = {"PropagationEntryNotVerified", "ExhaustiveVerifierShortCircuit", "FixEntryNotVerified", "InRangePolicyNotSelfVerified",
+VERIFY_DEVS = {"MergeableThresholdOneNotPossible", "MergeableGlobalRuleNoRecorderCredit", "PropagationEntryNotVerified", "ExhaustiveVerifierShortCircuit", "FixEntryNotVerified", "InRangePolicyNotSelfVerified",
                "CodeReviewApprovalNotRevalidated"}
 
 
@@ -378,6 +378,12 @@ def c09(ctx):
     q = ctx.quick()
     fams = [("approvals", 4 if q else 5, 5 if q else 23)]
     return _verify(ctx, "C09", fams, 8000 if q else 60000, ["C01Refines"])
+
+
+def c19(ctx):
+    q = ctx.quick()
+    fams = [("merge", 4 if q else 5, 3 if q else 11)]
+    return _verify(ctx, "C19", fams, 3000 if q else 40000, ["C19Agrees"])
 
 
 def c07(ctx):
@@ -605,6 +611,7 @@ CHECKS = {
     "C01": c01,
     "C02": c02,
     "C09": c09,
+    "C19": c19,
     "C07": c07,
     "C11": c11,
     "C06": c06,
